@@ -323,25 +323,34 @@ Definition Pb_gs (c : gcase) : bool :=
   else N.eqb (gc_status c) 0 && Nat.eqb (length (gc_structs c)) (length (gc_order c)) &&
        (let sv := spec_view c in forallb (Pb_struct c sv) (gc_structs c)).
 
-(* the guard of the theorems, for every selected struct; accessor names unique w.r.t. the
-   declarative view of the whole run *)
+(* every selected embedded struct of the closure precedes the struct in the -type order: the package view is
+   complete when the struct is analysed.  (With a single run, a struct that precedes one of its embedded structs is
+   analysed before that struct's interfaces exist: the input class of the open finding K_embed_order, verdict 3.) *)
+Definition complete_order (c : gcase) (sd : sdecl) : bool :=
+  N.eqb (gc_rounds c) 2 ||
+  forallb (fun e : ident * ty =>
+             negb (existsb (String.eqb (fst e)) (gc_order c)) || surely_in_view c (sd_name sd) (fst e))
+          (first_embedded (gc_pkg c) (gc_fuel c) sd).
+
+(* the guard of the theorems, for every selected struct; the accessors of the closure are visible on *T w.r.t. the
+   declarative view of the whole run (C03_unique_names_visible: implied by unique accessor names) *)
 Definition guard_gs (c : gcase) : bool :=
   nodup_str (gc_order c) &&
   Nat.eqb (length (structs_of_order c)) (length (gc_order c)) &&
   (let sv := spec_view c in
    forallb (fun sd => c03_guard (gc_pkg c) (gc_flags c) (gc_fuel c) sd &&
-                      accessor_names_unique (gc_pkg c) sv (gc_fuel c) sd &&
                       accessors_visible (gc_pkg c) sv (gc_fuel c) sd &&
-                      not_self_embedded (gc_pkg c) (gc_fuel c) sd) (structs_of_order c)).
+                      not_self_embedded (gc_pkg c) (gc_fuel c) sd &&
+                      complete_order c sd) (structs_of_order c)).
 
 (* verdicts: 0 agree and the property holds; 1 model and implementation differ; 2 inside the guard and the
-   property fails on the observation; 3 outside the guard (input class of an open finding) and the literal
-   model agrees, or not observed; 4 harness error *)
+   property fails on the observation (a struct that was not observed, or whose generated code does not type-check,
+   counts: Pb demands status 0); 3 outside the guard (input class of an open finding) and the literal model agrees
+   or the package was not observable; 4 harness error *)
 Definition gverdict (c : gcase) : N :=
-  if existsb (fun o => N.eqb (so_status o) 5) (gc_structs c) then 3%N
-  else if guard_gs c then
+  if guard_gs c then
     if Pb_gs c then (if agree_gs c then 0%N else 1%N) else 2%N
-  else if existsb (fun o => N.eqb (so_status o) 3) (gc_structs c) || agree_gs c then 3%N else 1%N.
+  else if existsb (fun o => negb (N.eqb (so_status o) 0)) (gc_structs c) || agree_gs c then 3%N else 1%N.
 
 Fixpoint gmismatches_from (i : N) (cs : list gcase) : list (N * N) :=
   match cs with
